@@ -376,6 +376,7 @@ class Net(object):
         self.conn_plan = None           # f(index, c2s_pipe, s2c_pipe, peer_addr): configure a new connection
         self.refuse = None              # f(address) -> None | 'REFUSE' | 'TIMEOUT'
         self.connect_latency = 0.0
+        self.reuse_ports = None         # f() -> bool: may a new connection re-use a fully closed one's port?
 
     def fired(self, kind, n=1):
         self.faults_fired[kind] = self.faults_fired.get(kind, 0) + n
@@ -410,7 +411,16 @@ class Net(object):
             s.log('refused', port)
             raise ConnectionRefusedError(errno.ECONNREFUSED, 'Connection refused')
         idx = len(self.conns)
-        sock.addr = ('127.0.0.1', self.alloc_port())
+        port_c = None
+        if self.reuse_ports is not None:
+            # ephemeral-port wrap-around / NAT re-use: a new connection may come from the address of an
+            # earlier connection that is completely closed on both sides
+            free = [c.addr[1] for c, sv in self.conns if c.closed and sv.closed and
+                    not any((c2.addr[1] == c.addr[1]) and not (c2.closed and s2.closed) for c2, s2 in self.conns)]
+            if free and self.reuse_ports():
+                port_c = free[-1]
+                self.fired('PORT_REUSED')
+        sock.addr = ('127.0.0.1', port_c if port_c is not None else self.alloc_port())
         sock.peer = (host, port)
         srv = SimSocket(self)
         srv.addr = lst.addr
